@@ -373,6 +373,9 @@ def run(ctx, eng):
                'what the sender does not refuse it normalises so that the '
                'receiver accepts it: lower-casing and trimming come before '
                'the stages that match names')
+    cm.include(ctx, eng, 'C11', {'FLOW.queue'},
+               'settings changes race traffic: what the peer may use is what '
+               'each SETTINGS frame announced, one value per frame, in order')
     cm.include(ctx, eng, 'C05', {'ARITH.increment'},
                'the credit announced to the peer is the credit recorded '
                'here, or a send the peer was entitled to is refused')
